@@ -1737,6 +1737,29 @@ func genPt2(rng *h.Rng, thorough, smultDone bool, emit func(string)) {
 			emit(fmt.Sprintf("pt2 mul %s %s", hx32(lo[rng.Intn(len(lo))]), enc(pts[1+rng.Intn(len(pts)-1)])))
 		}
 	}
+	// Equal on pairs of points whose encodings differ in ONE place only (review 5-F finding 1: a comparison loop that
+	// skips a byte): (P, -P) differ in bit 255 alone; the same y with byte 0 / the low bits of byte 31 / a middle byte changed
+	neq := 2
+	if thorough {
+		neq = 12
+	}
+	for i := 0; i < neq; i++ {
+		pe := ed25519Pub(rng.Bytes(32))
+		flip := append([]byte{}, pe...)
+		flip[31] ^= 0x80
+		emit(fmt.Sprintf("pt2 equal %s %s", h.Hex(pe), h.Hex(flip)))
+		emit(fmt.Sprintf("pt2 equal %s %s", h.Hex(flip), h.Hex(pe)))
+		for _, pos := range []int{0, 31, 1 + rng.Intn(30)} {
+			for d := 1; d < 128; d++ {
+				q := append([]byte{}, pe...)
+				q[pos] ^= byte(d)
+				if _, _, _, ok := bigDecode(q); ok {
+					emit(fmt.Sprintf("pt2 equal %s %s", h.Hex(pe), h.Hex(q)))
+					break
+				}
+			}
+		}
+	}
 	// non-canonical encodings of y = 1 (x = 0) and y = 0, wrong lengths
 	emit("pt2 unmarshal " + hx32(new(big.Int).Add(prime, big.NewInt(1))))
 	emit("pt2 unmarshal " + h.Hex(rng.Bytes(31)))
